@@ -64,6 +64,26 @@ class R:
     def __neg__(self):
         return R(-self.a)
 
+    def __gt__(self, o):
+        return np.asarray(self.a) > self._u(o)
+
+
+class RCtx:
+    """The two Context methods algorithms.get_veltkamp_splitter_constant needs, executed eagerly in
+    the dtype of the `like` operand."""
+
+    def constant(self, v, like):
+        return R(np.asarray(like.a).dtype.type(v))
+
+    def select(self, c, a, b):
+        a, b = (x.a if isinstance(x, R) else x for x in (a, b))
+        return R(a if bool(c) else b)
+
+
+def alg_constant(fa, t):
+    """the splitter constant complex_log/complex_log1p use for dtype t (package's own derivation)"""
+    return fa.algorithms.get_veltkamp_splitter_constant(RCtx(), R(t(np.finfo(t).max))).a
+
 
 def sig_width(a):
     """Number of significant bits of each finite float (0 for zero): bit length of the odd part of
@@ -111,8 +131,11 @@ def variants_prod(fa, dtname):
     p = FMT[dtname]["p"]
     C = t(2 ** ((p + 1) // 2) + 1)
 
+    CA = alg_constant(fa, t)
+    CU = u.get_veltkamp_splitter_constant(t)
+
     def alg_square(x, y):
-        xh, xl = alg.split_veltkamp(None, C, R(x))
+        xh, xl = alg.split_veltkamp(None, CA, R(x))
         h, l = alg.square_dekker(None, R(x), xh, xl)
         return h.a, l.a
 
@@ -126,6 +149,7 @@ def variants_prod(fa, dtname):
         "apmath.two_prod[fix_overflow]": (lambda x, y: ap.two_prod(ctx, x, y, fix_overflow=True), False, True, True),
         "utils.multiply_dekker": (lambda x, y: u.multiply_dekker(x, y, C=C), False, False, False),
         "utils.square_dekker": (lambda x, y: u.square_dekker(x, C=C), True, False, False),
+        "utils.multiply_dekker[C=utils.get_veltkamp_splitter_constant]": (lambda x, y: u.multiply_dekker(x, y, C=CU), False, False, False),
         "algorithms.square_dekker": (alg_square, True, False, False),
     }
 
@@ -138,6 +162,8 @@ def variants_split(fa, dtname):
     ctx = u.NumpyContext(t)
     p = FMT[dtname]["p"]
     C = t(2 ** ((p + 1) // 2) + 1)
+    CA = alg_constant(fa, t)
+    CU = u.get_veltkamp_splitter_constant(t)
     return {
         "fpa.split_veltkamp": (lambda x: fpa.split_veltkamp(ctx, x), False),
         "fpa.split_veltkamp[C]": (lambda x: fpa.split_veltkamp(ctx, x, C), False),
@@ -145,7 +171,8 @@ def variants_split(fa, dtname):
         "fpa.split_veltkamp[C,scale]": (lambda x: fpa.split_veltkamp(ctx, x, C, scale=True), True),
         "apmath.split": (lambda x: fa.apmath.split(ctx, x), True),
         "utils.split_veltkamp[C]": (lambda x: u.split_veltkamp(x, C=C), False),
-        "algorithms.split_veltkamp": (lambda x: tuple(r.a for r in alg.split_veltkamp(None, C, R(x))), False),
+        "algorithms.split_veltkamp": (lambda x: tuple(r.a for r in alg.split_veltkamp(None, CA, R(x))), False),
+        "utils.split_veltkamp[C=utils.get_veltkamp_splitter_constant]": (lambda x: u.split_veltkamp(x, C=CU), False),
     }
 
 
